@@ -419,7 +419,7 @@ func runC11(ctx Ctx) int {
 		items = append(items, p)
 		return true
 	})
-	deadline := devx.Deadline(map[string]time.Duration{"quick": 5 * time.Minute, "thorough": 30 * time.Minute}[run.Tier])
+	deadline := devx.Deadline(map[string]time.Duration{"quick": 5 * time.Minute, "thorough": 15 * time.Minute}[run.Tier])
 	_, complete := parallel(len(items), deadline, func(i int) {
 		p := items[i]
 		v := c11Judge(p)
@@ -442,7 +442,7 @@ func runC11(ctx Ctx) int {
 	{
 		cb, cs := 1, 90
 		if ev.Tier() == "thorough" {
-			cb, cs = 2, 1200
+			cb, cs = 2, 180
 		}
 		runConc(run, "C11", cb, cs)
 	}
